@@ -190,6 +190,12 @@ func (h *Handler) validateNoUsages(ctx context.Context, u *unstructured.Unstruct
 func inUseMessage(usages *v1beta1.UsageList) string {
 	first := usages.Items[0]
 	if first.Spec.By != nil {
+		// The using resource may be selected by labels rather than named. It
+		// has no reference until the selector has been resolved - which may
+		// never happen, if the selector matches nothing.
+		if first.Spec.By.ResourceRef == nil {
+			return fmt.Sprintf("This resource is in-use by %d Usage(s), including the Usage %q by a resource of kind %s.", len(usages.Items), first.Name, first.Spec.By.Kind)
+		}
 		return fmt.Sprintf("This resource is in-use by %d Usage(s), including the Usage %q by resource %s/%s.", len(usages.Items), first.Name, first.Spec.By.Kind, first.Spec.By.ResourceRef.Name)
 	}
 	if first.Spec.Reason != nil {
